@@ -14,3 +14,4 @@ pub mod frames;
 pub mod shutdown;
 pub mod multitopic;
 pub mod peerloss;
+pub mod rrslow;
